@@ -349,6 +349,55 @@ def dup_in_one_mapping(r):
     return layers
 
 
-FAMILIES = {"dup_in_one_mapping": dup_in_one_mapping, "odd_keys": odd_keys, "null_const": lambda r: null_const(r), "empty_segments": empty_segments, "override_through_path": override_through_path, "empty_const": empty_const,
+def colon_selectors(r):
+    """A nested reference inside a path whose rendered value itself contains ':' supplies several path segments."""
+    sizes = G.M([["tier", G.M([["web", G.I(2)], ["db", G.M([["cpu", G.I(8)]])]])], ["flat", G.I(1)]])
+    sel = r.choice(["tier:web", "tier:db:cpu", "tier:db", "flat", "tier:cache", "sizes:tier:web"])
+    uses = ["${sizes:${selector}}", "x${sizes:${selector}}", "${${where}}", "${sizes:${selector}:cpu}"]
+    return [G.M([["sizes", sizes], ["selector", sel], ["where", r.choice(["sizes:tier:db:cpu", "sizes:flat", "sizes:tier:nope"])]] +
+                [["u%d" % i, u] for i, u in enumerate(r.shuffle(uses)[: r.range(1, 3)])])]
+
+
+def same_value_layers(r):
+    """Layers that restate the value already on top (scalars, also with a constant or override marker), identical
+    mappings/lists in successive layers (lists must concatenate), and layers differing only in float values."""
+    mode = r.choice(["const_same", "const_same", "identical_maps", "floats", "identical_lists"])
+    nested = r.chance(1, 2)
+    def wrap(e):
+        return G.M([["p", G.M([e])]]) if nested else G.M([e])
+    if mode == "const_same":
+        v = r.choice([G.I(5), "eu-west", True, {"f": ["0.5", ""]}, None])
+        layers = [wrap(["region", v])]
+        if r.chance(1, 3):
+            layers.append(wrap(["region", v]))
+        layers.append(wrap([r.choice(["=region", "=region", "~region", "region"]), v]))
+        late = r.choice([G.I(6), "us-east", v])
+        if r.chance(1, 3):
+            layers.append(G.M([["src", G.M([["region", late]])]]))
+            layers.append(G.M([["p", "${src}"]]) if nested else wrap(["region", late]))
+        else:
+            layers.append(wrap([r.choice(["region", "=region", "~region"]), late]))
+        return layers
+    if mode == "identical_maps":
+        m = G.M([["install", [r.choice(["vim", G.I(1)])]], ["k", G.I(1)]])
+        return [wrap(["pkgs", m]) for _ in range(r.range(2, 4))] + ([G.M([["use", "${p:pkgs}" if nested else "${pkgs}"]])] if r.chance(1, 2) else [])
+    if mode == "identical_lists":
+        return [wrap(["l", [G.I(1), "a"]]) for _ in range(r.range(2, 4))]
+    fa, fb = r.choice([("0.5", "0.75"), ("1.5", "2.5"), ("0.1", "1e-7")])
+    return [wrap(["limits", G.M([["ratio", {"f": [fa, ""]}], ["w", [{"f": [fa, ""]}]]])]), wrap(["limits", G.M([["ratio", {"f": [fb, ""]}], ["w", [{"f": [fb, ""]}]]])])]
+
+
+def sibling_fullpath_refs(r):
+    """A mapping referenced as a whole whose values refer to sibling keys by their full path (a diamond, not a loop)."""
+    inner = [["name", "app"], ["fullname", "${defaults:name}-prod"], ["n", G.M([["deep", "${defaults:name}"]])]]
+    layers = [G.M([["defaults", G.M(inner)], ["instance", "${defaults}"]])]
+    if r.chance(1, 2):
+        layers.append(G.M([["defaults", G.M([["extra", "${defaults:fullname}"]])]]))
+    layers.append(G.M([["a", "${b}"], ["b", r.choice(["${defaults}", "${defaults:n}", "x${defaults}"])]]))
+    return layers
+
+
+FAMILIES = {"colon_selectors": colon_selectors, "same_value_layers": same_value_layers, "sibling_fullpath_refs": sibling_fullpath_refs,
+            "dup_in_one_mapping": dup_in_one_mapping, "odd_keys": odd_keys, "null_const": lambda r: null_const(r), "empty_segments": empty_segments, "override_through_path": override_through_path, "empty_const": empty_const,
             "deep_ref_layers": deep_ref_layers, "repeated_layers": repeated_layers, "escapes_in_containers": escapes_in_containers,
             "both_flags": both_flags}
